@@ -40,6 +40,8 @@ def run(ctx):
     ctx.do(rule_all_versions_kept)
     ctx.do(rule_save_load)
     ctx.do(rule_encoding_agreement)
+    from .C17 import rule_failed_write_leaves_no_file
+    ctx.do(rule_failed_write_leaves_no_file, rule_id="C11.check-before-write")
     # what a store holds is what was added, under the version the caller named (or none): the stores hand the version on
     # exactly as received
     from . import C14
@@ -116,6 +118,22 @@ def _own(n):
     return [e for e in own_exprs(n) if e is not None]
 
 
+def _cleans_up_own_write(c):
+    """os.remove(P) inside an except handler whose try body opens the same P for writing"""
+    h = getattr(c, "parent", None)
+    while h is not None and not isinstance(h, ast.ExceptHandler):
+        h = getattr(h, "parent", None)
+    tr = getattr(h, "parent", None) if h is not None else None
+    if not isinstance(tr, ast.Try) or not c.args:
+        return False
+    for x in (y for st_ in tr.body for y in ast.walk(st_)):
+        if isinstance(x, ast.Call):
+            mode = _open_mode(x)
+            if mode and mode[0] in "wax" and x.args and norm(x.args[0]) == norm(c.args[0]):
+                return True
+    return False
+
+
 def rule_single_writer(ctx):
     run = ctx.run
     prog = ctx.prog
@@ -133,6 +151,8 @@ def rule_single_writer(ctx):
                     if mode and mode[0] in "wax":
                         writers.append(fi.qualname)
                     if dotted(c.func) in ("os.remove", "os.unlink", "os.rename", "os.replace", "shutil.rmtree", "shutil.move"):
+                        if dotted(c.func) in ("os.remove", "os.unlink") and _cleans_up_own_write(c):
+                            continue      # the writer removes the file IT just failed to write (C17.commit-last demands that)
                         writers.append(fi.qualname + ":" + dotted(c.func))
         run.check(set(writers) == ok_funcs, R, key(m.relpath, "<module>", "who-may-open-for-writing"),
                   "the set of functions that write/remove files in %s changed" % modname, file=m.relpath, line=1,
